@@ -4,14 +4,14 @@
 #include <ascon/permutation.h>
 
 static std::string op_perm(const Toks &t) {
-    std::vector<unsigned char> in = unhex(t[2]);
-    ascon_state_t st; unsigned char out[40];
+    Buf in(unhex(t[2])), out(40);       // exactly the bytes given / exactly 40 bytes (hx.h: exact, possibly misaligned)
+    ascon_state_t st;
     ascon_init(&st);
-    ascon_overwrite_bytes(&st, in.data(), 0, 40);
+    ascon_overwrite_bytes(&st, in.p, 0, 40);
     ascon_permute(&st, (uint8_t)atoi(t[1].c_str()));
-    ascon_extract_bytes(&st, out, 0, 40);
+    ascon_extract_bytes(&st, out.p, 0, 40);
     ascon_free(&st);
-    return hex(out, 40);
+    return out.hx();
 }
 static Reg r_perm("PERM", op_perm);
 
@@ -61,15 +61,23 @@ static unsigned char *inc_nonce(IncObj *o) {
     return o->v == 0 ? o->u.a.nonce : o->v == 1 ? o->u.b.nonce : o->u.c.nonce;
 }
 
+// a key / nonce argument: NULL, or a caller buffer of exactly the bytes given (an empty byte string gives a null pointer, as
+// the data() of an empty std::vector did)
+struct OptBuf {
+    Buf *b;
+    explicit OptBuf(const std::string &tok) : b(tok == "NULL" ? 0 : new Buf(unhex(tok), true)) {}
+    ~OptBuf() { delete b; }
+    const unsigned char *p() const { return b ? b->p : 0; }
+private: OptBuf(const OptBuf &); OptBuf &operator=(const OptBuf &);
+};
+
 static std::string op_ai(const Toks &t) {
     int slot = atoi(t[1].c_str());
     if (t.size() >= 6 && t[3] == "INIT") {
         IncObj *o = new IncObj; memset(o, 0xCD, sizeof(*o));
         o->v = t[2] == "128" ? 0 : t[2] == "128a" ? 1 : 2;
-        std::vector<unsigned char> nv, kv;
-        const unsigned char *np = 0, *kp = 0;
-        if (t[4] != "NULL") { nv = unhex(t[4]); np = nv.data(); }
-        if (t[5] != "NULL") { kv = unhex(t[5]); kp = kv.data(); }
+        OptBuf nb(t[4]), kb(t[5]);
+        const unsigned char *np = nb.p(), *kp = kb.p();
         if (o->v == 0) ascon128_aead_init(&o->u.a, np, kp);
         else if (o->v == 1) ascon128a_aead_init(&o->u.b, np, kp);
         else ascon80pq_aead_init(&o->u.c, np, kp);
@@ -81,11 +89,8 @@ static std::string op_ai(const Toks &t) {
     IncObj *o = incs[slot];
     const std::string &op = t[2];
     if (op == "REINIT") {
-        std::vector<unsigned char> nv, kv;
-        const unsigned char *np = 0, *kp = 0;
-        if (t[3] == "SELF") np = inc_nonce(o);
-        else if (t[3] != "NULL") { nv = unhex(t[3]); np = nv.data(); }
-        if (t[4] != "NULL") { kv = unhex(t[4]); kp = kv.data(); }
+        OptBuf nb(t[3] == "SELF" ? std::string("NULL") : t[3]), kb(t[4]);
+        const unsigned char *np = t[3] == "SELF" ? inc_nonce(o) : nb.p(), *kp = kb.p();
         if (o->v == 0) ascon128_aead_reinit(&o->u.a, np, kp);
         else if (o->v == 1) ascon128a_aead_reinit(&o->u.b, np, kp);
         else ascon80pq_aead_reinit(&o->u.c, np, kp);
